@@ -26,7 +26,8 @@ int  symx_is_symbolic(uint64_t v);
 void symx_file_put(const char* name, const void* data, size_t n);   /* install a file in the model file system */
 size_t symx_file_size(const char* name);                            /* (size_t)-1 if absent */
 size_t symx_file_get(const char* name, void* buf, size_t cap);
-void symx_interfere(int on);        /* on: fread sees a stream position moved arbitrarily by "another thread" */
+void symx_interfere(int on);
+void symx_omp_permute(int on);    /* on: iterations of OpenMP dynamic-schedule loops (<= 3) are run in every order (fork) */        /* on: fread sees a stream position moved arbitrarily by "another thread" */
 #ifdef __cplusplus
 }
 #endif
